@@ -41,6 +41,9 @@ def parse_strace(path, P):
             a = args.split(",")
             cur.append(("w", int(a[-1]), int(a[-2])))
         elif name in ("fsync", "fdatasync"):
+            if any(o[0] == "w" and o[1] == 0 and o[2] == 4 * P for o in cur):
+                cur = []          # initialisation of a new file (4 pages written at offset 0): not a commit
+                continue
             cur.append(("s",))
             ws = [o for o in cur if o[0] == "w"]
             if ws and ws[-1][1] in (0, P) and ws[-1][2] == P and cur[-2][0] == "w" and cur[-2] == ws[-1]:
